@@ -31,72 +31,93 @@ def run(ctx, rep):
                   ("C11.d", "force disables parents"), ("C11.e", "parent cursor discipline")):
         rep.rule(r, tx)
     IP = prog.find1(r"^rustic_core::archiver::parent::Parent::is_parent$")
-    cls = prog.closures_of(IP, recursive=False)
-    pred = [c for c in cls if any("callee" in t and re.search(r"PartialEq", callee(t)) for _, t in c.calls()) or any(s[0] == "=" and s[2][0] == "bin" and s[2][1] == "Eq" for blk in c.blocks for s in blk["s"])]
-    rep.require("C11.a", "predicate-closure", len(pred) == 1, where=IP.loc(), what="Parent::is_parent has one match-predicate closure")
+    # the predicate: the closure handed to Iterator::find in is_parent; a closure that only forwards to a named fn is followed
+    finds = [(bb, t) for bb, t in IP.calls() if "callee" in t and re.search(r"Iterator(>)?::find$", callee(t) + " " + callee_decl(t))]
+    pred = []
+    for bb, t in finds:
+        for a_ in t["args"][1:]:
+            for d_ in IP.defs().get(op_local(a_), []):
+                if d_[0] == "stmt" and d_[4][0] == "agg" and d_[4][1][0] == "closure":
+                    pred += [c for c in prog.closures_of(IP, recursive=False) if c.path == d_[4][1][1]]
+    rep.require("C11.a", "predicate-closure", len(pred) == 1, where=IP.loc(), what="Parent::is_parent selects the parent node with Iterator::find(<one predicate closure>)")
+
+    def is_cmp(e):
+        return isinstance(e, tuple) and e and ((e[0] == "bin" and e[1] in ("Eq", "Ne")) or (e[0] == "call" and re.search(r"PartialEq(<.*>)?(>)?::(eq|ne)$", e[1])))
+
+    def has_cmp(b_):
+        return any("callee" in t and re.search(r"PartialEq", callee(t)) for _, t in b_.calls()) or any(s_[0] == "=" and s_[2][0] == "bin" and s_[2][1] in ("Eq", "Ne") for blk in b_.blocks for s_ in blk["s"])
     if len(pred) == 1:
         c = pred[0]
-        compared = {}
-        # comparison sites: Eq bin and PartialEq::eq calls; collect field names on both operands
+        hops = 0
+        while not has_cmp(c) and hops < 3:
+            inner = [(bb, t) for bb, t in c.calls() if "callee" in t and callee(t) in prog.bodies and callee(t).startswith("rustic_core::") and bb in flow.backward_slice(c, [0])["call_sites"]]
+            if len(inner) != 1:
+                break
+            c = prog.bodies[callee(inner[0][1])]
+            hops += 1
+        rep.observe(f"C11.a: predicate body analysed: {fn_key(c)}")
+        for f in ("node_type", "size", "mtime"):
+            vals = bool_result_under(c, field_cmp_eval(f, False))
+            ok = vals <= {False} and bool(vals)
+            rep.check("C11.a", f"compares/{f}", ok, where=c.loc(), what=f"a parent node matches only if its {f} equals the current node's {f} (predicate evaluated under '{f} differs': result {sorted(map(str, vals))})" if ok else
+                      f"the parent match does not depend on {f} on every path (predicate evaluated under '{f} differs' can yield {sorted(map(str, vals))}): a file changed in {f} only is taken from the parent unread")
+        # ctime: compared (directly or through Option::zip), and the only bypass is ignore_ctime
+        ct_direct = False
+        ct_zip = False
         for bi, blk in enumerate(c.blocks):
-            for si, s in enumerate(blk["s"]):
-                if s[0] == "=" and s[2][0] == "bin" and s[2][1] in ("Eq", "Ne"):
-                    fa = flow.backward_slice(c, op_place(s[2][2]))["fields"] if op_place(s[2][2]) else set()
-                    fb = flow.backward_slice(c, op_place(s[2][3]))["fields"] if op_place(s[2][3]) else set()
-                    for f in fa & fb:
-                        compared.setdefault(f, []).append(("bin", bi, s[1][0]))
+            for s_ in blk["s"]:
+                if s_[0] == "=" and s_[2][0] == "bin" and s_[2][1] in ("Eq", "Ne"):
+                    e = flow._rv_expr(c, s_[2], bi, 0, set())
+                    if field_cmp_eval("ctime", False)(c, e) is not None:
+                        ct_direct = True
             t = blk["t"]
-            if t["k"] == "call" and "callee" in t and re.search(r"PartialEq(<.*>)?>::(eq|ne)$|PartialEq::(eq|ne)$|Option::<T>::zip$", callee(t)) and len(t["args"]) == 2:
-                fa = flow.backward_slice(c, op_place(t["args"][0]))["fields"] if op_place(t["args"][0]) else set()
-                fb = flow.backward_slice(c, op_place(t["args"][1]))["fields"] if op_place(t["args"][1]) else set()
-                for f in fa & fb:
-                    compared.setdefault(f, []).append(("call", bi, t["dest"][0]))
+            if t["k"] == "call" and "callee" in t and len(t["args"]) == 2:
+                e = ("call", callee(t), [flow.expr_of(c, a_, bi) for a_ in t["args"]], bi)
+                if field_cmp_eval("ctime", False)(c, e) is not None:
+                    ct_direct = True
+                if re.search(r"Option::<T>::zip$", callee(t)):
+                    fa = flow.backward_slice(c, op_place(t["args"][0]))["fields"] if op_place(t["args"][0]) else set()
+                    fb = flow.backward_slice(c, op_place(t["args"][1]))["fields"] if op_place(t["args"][1]) else set()
+                    if "ctime" in fa and "ctime" in fb:
+                        ct_zip = True
+        rep.check("C11.a", "compares/ctime", ct_direct or ct_zip, where=c.loc(), what="ctime of parent and current node are compared")
+        if ct_direct:
+            # evaluated: both ctimes present and different, ignore_ctime off -> never a match
+            fe, fc = flag_eval("ignore_ctime", False), field_cmp_eval("ctime", False)
 
-        def false_yields_false(bi, res_local):
-            """the bool computed at (bi -> res_local) is switched on and its false edge assigns `_0 = false`"""
-            aliases, _, _ = flow.forward_aliases(c, res_local)
+            def ev_ct(b_, e):
+                v = fc(b_, e)
+                return v if v is not None else fe(b_, e)
+
+            def some_ctime(b_, bb):
+                t = b_.term(bb)
+                if t["k"] != "switch" or t["discr_ty"] == "bool":
+                    return None
+                e = flow.expr_of(b_, t["discr"], bb)
+                if e[0] == "discr" and "'ctime'" in repr(e[1]) and "Option" in str(e[2]):
+                    one = [x for v, x in t["targets"] if v == "1"]
+                    return one[0] if one else t["otherwise"]
+                return None
+            vals = bool_result_under(c, ev_ct, some_ctime)
+            ig = vals <= {False} and bool(vals)
+            rep.check("C11.a", "ctime-bypass-only-ignore_ctime", ig, where=c.loc(), what="with ignore_ctime off, two present and different ctimes never match" if ig else
+                      f"with ignore_ctime off and different ctimes the predicate can still yield {sorted(map(str, vals))}")
+        else:
+            # Option::zip(..).is_none_or(|(x, y)| x == y) form: the comparison lives in a nested closure; the bool merged with it is
+            # a test of ignore_ctime
+            ig = False
             for sw in range(len(c.blocks)):
                 t = c.term(sw)
-                if t["k"] == "switch" and op_local(t["discr"]) in aliases:
-                    zero = [x for v, x in t["targets"] if v == "0"]
-                    z = zero[0] if zero else None
-                    hops = 0
-                    while z is not None and hops < 8:
-                        if any(s[0] == "=" and s[1] == [0] and s[2][0] == "use" and s[2][1][0] == "k" and s[2][1][1].get("v") is False for s in c.blocks[z]["s"]):
-                            return True
-                        tz = c.term(z)
-                        if tz["k"] == "goto" and not any(s[0] == "=" and s[1] == [0] for s in c.blocks[z]["s"]):
-                            z = tz["to"]
-                            hops += 1
-                        else:
-                            break
-            # or it is the final conjunct: assigned to _0 directly
-            return 0 in aliases
-        for f in ("node_type", "size", "mtime"):
-            sites_ = compared.get(f, [])
-            ok = any(false_yields_false(bi, rl) for (_, bi, rl) in sites_)
-            rep.check("C11.a", f"compares/{f}", ok, where=c.loc(), what=f"a parent node matches only if its {f} equals the current node's {f}" if ok else f"the parent match no longer depends on {f}: a file changed in {f} only is taken from the parent unread")
-        # ctime: compared, and the only bypass is the ignore_ctime capture
-        ct = compared.get("ctime", [])
-        rep.check("C11.a", "compares/ctime", bool(ct), where=c.loc(), what="ctime of parent and current node are compared")
-        # the bool merged with ignore_ctime: some switch on an upvar named ignore_ctime exists in the closure
-        ig = False
-        for sw in range(len(c.blocks)):
-            t = c.term(sw)
-            if t["k"] == "switch" and t["discr_ty"] == "bool":
-                e = flow.expr_of(c, t["discr"])
-                if e[0] == "path" and e[1] == ("arg", 1) and e[2] and e[2][0].isdigit():
-                    nm = _upvar_name(c, int(e[2][0]))
+                if t["k"] == "switch" and t["discr_ty"] == "bool":
+                    nm, _neg = cond_name(c, flow.expr_of(c, t["discr"]))
                     if nm == "ignore_ctime":
                         ig = True
-        rep.check("C11.a", "ctime-bypass-only-ignore_ctime", ig, where=c.loc(), what="the ctime comparison is skipped only under ignore_ctime")
+            rep.check("C11.a", "ctime-bypass-only-ignore_ctime", ig, where=c.loc(), what="the ctime comparison is skipped only under ignore_ctime")
     # the node returned as Matched is the one the predicate accepted: Iterator::find(predicate)
-    finds = [(bb, t) for bb, t in IP.calls() if "callee" in t and re.search(r"Iterator(>)?::find$", callee(t) + " " + callee_decl(t))]
     okfind = False
     if len(finds) == 1 and len(pred) == 1:
         bb, t = finds[0]
-        passes_pred = any(d_[0] == "stmt" and d_[4][0] == "agg" and d_[4][1][0] == "closure" and d_[4][1][1] == pred[0].path for a in t["args"][1:] for d_ in IP.defs().get(op_local(a), []))
-        okfind = passes_pred and bb in flow.backward_slice(IP, [0])["call_sites"]
+        okfind = bb in flow.backward_slice(IP, [0])["call_sites"]
     rep.check("C11.a", "matched-node-is-the-accepted-one", okfind, where=IP.loc(), what="is_parent returns the parent node selected by find(predicate) (with several parents: the one that actually matched)" if okfind else
               "is_parent does not return the node for which the match predicate held (e.g. the first parent's entry when any parent matches): stale content is reused")
     # time stamps are recorded with sub-second resolution (a change within the same second is visible)
